@@ -666,8 +666,16 @@ func verifHosts(l *roundRobinLoadBalancer) []*Host { return l.hosts.Load().([]*H
 // (When the new connection's host is missing from the tables it reports, the attempt fails after the
 // connection was installed and closed: the loop then sees a closed connection. Hence the weaker
 // "installed => clock zero" instead of "failed => connection unchanged".)
-//@ func proxycore.Cluster.connect [C16]
+// C14 / C16: a failed attempt leaves no open connection behind. The connection it created has already
+// registered for events with the cluster as handler; left open it would keep feeding events next to
+// the control connection established later, and every schema change would be fanned out twice.
+//@ func proxycore.Cluster.connect [C16, C14]
+//@   local $ccConn *ClientConn = nil
+//@   local $ccClosed bool = false
 //@   requires c != nil && c.logger != nil && c.config.Resolver != nil && (c.controlConn != nil ==> $outageZero)
+//@   after proxycore.ConnectClient#1 set $ccConn = result0
+//@   before proxycore.ClientConn.Close#* set $ccClosed = $ccClosed || arg0 == $ccConn
+//@   ensures failed-attempt-leaves-no-connection: err != nil && $ccConn != nil ==> $ccClosed [C14]
 //@   ensures connected: err == nil ==> c.controlConn != nil && clusterOK(c)
 //@   ensures connOK(c.controlConn) || c.controlConn == old(c.controlConn)
 //@   ensures outage-only-without-connection: c.controlConn != nil ==> $outageZero
